@@ -712,6 +712,18 @@ fn op_rcu(ctx: Ctx, c: u8, spec: RcuSpec, h: u8) {
 
 /// Gives up this thread's share of the container; the last share drops (or consumes) it.
 fn op_release(ctx: Ctx, c: u8, into_inner: Option<u8>) {
+    // Sharing a container between threads and later gaining exclusive access to it needs
+    // synchronisation in any real program (e.g. the count of an Arc<ArcSwap>): everybody who
+    // lets go releases, the one who ends up with it acquires.
+    let chan = w(|w| {
+        let e = w.conts.get(c as usize)?;
+        if e.shares & (1u32 << ctx.th) == 0 {
+            return None;
+        }
+        Some(e.chan)
+    });
+    let Some(chan) = chan else { return };
+    rt::chan_release(chan);
     let last = w(|w| {
         let Some(e) = w.conts.get_mut(c as usize) else { return None };
         let bit = 1u32 << ctx.th;
@@ -726,6 +738,7 @@ fn op_release(ctx: Ctx, c: u8, into_inner: Option<u8>) {
         }
     });
     let Some(rc) = last else { return };
+    rt::chan_acquire(chan);
     finish_cont(ctx, c, rc, into_inner);
 }
 
@@ -877,7 +890,21 @@ fn op_tls(ctx: Ctx, ops: &[Op]) {
     }
 }
 
-fn op_set_gen(_ctx: Ctx, off: i32) {
+fn op_set_gen(ctx: Ctx, off: i32) {
+    // The counter may only be moved forward, once: presetting it twice would rewind it and
+    // reuse generations without the cooldown that protects a real wrap-around (an artefact of
+    // the knob, not a reachable state).
+    let first = w(|w| {
+        if w.gen_set[ctx.th] {
+            false
+        } else {
+            w.gen_set[ctx.th] = true;
+            true
+        }
+    });
+    if !first {
+        return;
+    }
     let g = 0usize.wrapping_sub(4 * off.max(0) as usize);
     arc_swap::verif::set_generation(g);
     w(|w| w.gen_presets += 1);
@@ -1008,6 +1035,7 @@ pub fn setup_world(prog: &Program) {
         nw.seen = vec![Vec::new(); n];
         nw.writes_done = vec![0; n];
         nw.tls_regs = vec![0; n];
+        nw.gen_set = vec![false; n];
         // Dropping the previous world releases pointers into the (already reset) arena only by
         // address: SimArc::drop would touch freed slots, so leak them instead.
         let old = std::mem::replace(&mut *wc.borrow_mut(), nw);
@@ -1071,6 +1099,7 @@ pub fn main_thread() {
             w.conts.push(ContEntry {
                 c: Some(Rc::new(cont)),
                 shares: all_shares,
+                chan: rt::sem_new(),
                 init_uid: u2,
                 init_addr: a2,
                 kind: cs.kind as u8,
@@ -1453,6 +1482,28 @@ pub fn event_hook(id: u32, arg: usize) {
                 format!("thread {} claimed a node that thread {} still owns", me, p),
             );
         }
+    } else if id == probes::FAST_FIRST_READ {
+        // which object did the fast path read the pointer of?
+        let u = arena::slot_at(arg).map(|(_, uid, _)| uid).unwrap_or(0);
+        w(|w| {
+            if w.first_read.len() <= me {
+                w.first_read.resize(me + 1, (0, 0));
+            }
+            w.first_read[me] = (arg, u);
+        });
+    } else if id == probes::FAST_CHANGED_PAID {
+        // "the debt was already paid by someone, so we are fine using the pointer": is the
+        // object now at that address still the one whose pointer was read?
+        let now = arena::slot_at(arg).map(|(_, uid, _)| uid).unwrap_or(0);
+        w(|w| {
+            let (a, u) = w.first_read.get(me).copied().unwrap_or((0, 0));
+            if a == arg && u != now {
+                w.markers.push(format!(
+                    "aba-paid-debt: fast path read the pointer of uid={}, the address was reused for uid={}, a writer paid the stale debt and the load returns uid={}",
+                    u, now, now
+                ));
+            }
+        });
     } else if id == probes::COOLDOWN_STARTED {
         let prev = w(|w| {
             w.live_users = w.live_users.saturating_sub(1);
